@@ -114,7 +114,12 @@ let run_table_op (t : table ref) (text : string) : string =
     let cols = cols_of_mask (int_of_string mask) in
     let ks = sorted_projection !t p cols in
     let k = Stdlib.List.map (fun c -> Stdlib.List.nth vals (ofnat c)) cols in
-    Printf.sprintf "s %d %d %d %d" (Stdlib.List.length ks) (keys_digest ks) (ofnat (lower_bound_count ks k)) (ofnat (upper_bound_count ks k))
+    (* bounds by the model of std::upper_bound's halving loop with pvBinarySearch's two predicates *)
+    let n = Stdlib.List.length ks in
+    let lb = SelectionModel.ub_bisect (nat (n + 1)) (SelectionModel.lower_pred k) [] ks (nat 0) (nat n) in
+    let ub = SelectionModel.ub_bisect (nat (n + 1)) (SelectionModel.upper_pred k) [] ks (nat 0) (nat n) in
+    if ofnat lb <> ofnat (lower_bound_count ks k) || ofnat ub <> ofnat (upper_bound_count ks k) then "s MODEL-BOUNDS-DIFFER" else
+    Printf.sprintf "s %d %d %d %d" n (keys_digest ks) (ofnat lb) (ofnat ub)
   | ["D"] -> Stdlib.String.concat " " ("d" :: Stdlib.List.map (fun r -> Stdlib.String.concat "." (Stdlib.List.map string_of_z r)) !t.rows)
   | _ -> "?"
 
